@@ -218,6 +218,18 @@ class Runner:
 
         agg = {"evaluations": evaluations, "distinct": len(distinct), "trivial": trivial,
                "counters": counters, "per_kind": per_kind}
+        # parent-side oracle over the results of several children (e.g. cross-process differential)
+        cross = getattr(mod, "cross_check", None)
+        if cross and replay_of is None:
+            pairs = [(st["spec"], st["result"]) for st in statuses if st.get("result") and st["result"].get("ok")]
+            n_eval, found = cross(pairs)
+            evaluations += n_eval
+            agg["evaluations"] = evaluations
+            for key, what, witness, spec in found:
+                vv = violations.setdefault(key, {"what": what, "count": 0, "witnesses": [], "spec": spec})
+                vv["count"] += 1
+                if len(vv["witnesses"]) < 3:
+                    vv["witnesses"].append(witness)
         fin = getattr(mod, "finalize", None)
         if fin and replay_of is None:
             for reason in fin(agg, self.tier) or []:
